@@ -192,4 +192,20 @@ C15_Holds(c, in, o) ==
     [] c = "rejected-when-misused" -> in.fault # "" => (o.rejected \/ o.panicked)
     [] c = "specific-message" -> in.fault # "" /\ o.rejected => C15_Phrases(in.fault, in.optname) \subseteq o.phrases
 C15_Fail(in, o) == { c \in C15_Conj : ~C15_Holds(c, in, o) }
+
+(***************************************************************************)
+(* C04  Dependency bounds bubble up exactly: implemented iff the deps are  *)
+(*      satisfied.                                                         *)
+(*  in : [declared: the set of bounds declared on the dependency parameter *)
+(*        by ALL functions of the trait, byvalue, mocksupport: is mock     *)
+(*        support enabled for the invocation (as C10 defines "enabled")]   *)
+(*  probe: [shape \in {"bare","implT"}, sat: the declared-bound traits the *)
+(*        probe type satisfies, sync, send]                                *)
+(*  The implementation must exist for the probe type iff ...               *)
+(***************************************************************************)
+C04_AvailReq(in, pr) ==
+  /\ in.declared \subseteq pr.sat
+  /\ pr.sync                                   \* entrait's fixed requirement Sync + 'static ('static: all probes are)
+  /\ (in.byvalue => pr.send)                   \* and Send for by-value receivers
+  /\ (in.mocksupport => pr.shape = "implT")    \* mockable: for Impl<T> (and the mock type); otherwise every qualifying type
 =============================================================================
